@@ -125,6 +125,7 @@ def check(ctx):
     ctx.rule("R3", "no slice bound `-n` is evaluated unless n > 0 is established (x[:-0] == [] trap)", floor=1)
     ctx.rule("R5", "SQLite backend: the GC query cuts on the same age column the backend orders reads by, newest first", floor=4)
     ctx.rule("R4", "removal is control-dependent on `force or size_over < hsize`", floor=1)
+    ctx.rule("R6", "a session's file is marked unlocked only when the session ends (or by the reboot repair): the flag is cleared under the at-exit mode only, and only session-end code asks for that mode", floor=3)
 
     mod = ctx.repo.module(JSON)
     run = mod.func("JsonHistoryGC.run")
@@ -379,6 +380,104 @@ def check(ctx):
         ctx.ob("R5", "xonsh/history/sqlite.py:_xh_sqlite_delete_records", f"the GC cut is {what} the age column `{age}` that every read orders by (not insertion order)", cs == {age}, key=f"sqlite-gc|{what}", where=loc(gc_fn), detail=f"found {sorted(cs)}")
     ctx.ob("R5", "xonsh/history/sqlite.py:_xh_sqlite_delete_records", "the kept set is the top of a descending order (newest first) limited to the size to keep", bool(_re.search(r"ORDER BY\s+\w+\s+DESC", txt, _re.I)) and "LIMIT" in txt.upper(), key="sqlite-gc|direction", where=loc(gc_fn))
 
+    _lock_release(ctx)
+
+
+SESSION_END = {
+    "xonsh/built_ins.py:XonshSession.unload": "the session is being torn down",
+}
+
+
+def _lock_release(ctx):
+    """`locked: False` is what makes a file a GC candidate (R1).  Where may it be written?"""
+    mod = ctx.repo.module(JSON)
+    n_sites = 0
+    mode_attrs = set()
+    def unlocks(n):
+        return isinstance(n, ast.Assign) and any(isinstance(t, ast.Subscript) and const_value(t.slice, None) == "locked" for t in n.targets) and const_value(n.value, True) is False
+
+    methods = {q for q, _ in mod.functions() if "." in q}
+    for q, fn0 in mod.functions():
+        if "." not in q:
+            # a module-level helper that unlocks is judged where it is called (expanded into its callers below)
+            if any(unlocks(n) for n in walk_local(fn0)):
+                ok = only_called_from(ctx.repo, mod, q, methods)
+                ctx.ob("R6", f"{JSON}:{q}", "an unlocking helper is called only from the history classes of this module (and judged there)", ok, key=f"{q}|unlock-helper-escapes", where=loc(fn0))
+            continue
+        fn = flat(ctx, fn0, 2)
+        cfg = None
+        for n in walk_local(fn):
+            if not unlocks(n):
+                continue
+            n_sites += 1
+            cfg = cfg or CFG(fn)
+            nodes = cfg.nodes_of(n)
+            facts = nfacts(cfg, nodes[0]) if nodes else set()
+            pos = {t for t, pol in facts if pol}
+            st = f"{JSON}:{q}"
+            if q.startswith("JsonHistoryGC."):
+                # the reboot repair: the session that held the lock cannot be alive if it started before this boot
+                # role, not spelling: the local(s) holding the boot time are those bound from a *boottime() call
+                boots = names_bound_to_call(fn, lambda nm_: (nm_ or "").split(".")[-1].endswith("boottime")) | {"boottime()"}
+                ok = any("<" in t and any(t.rstrip().endswith("< " + b) or b in t.split("<", 1)[1] for b in boots) for t in pos) and any("locked" in t for t in pos)
+                ctx.ob("R6", st, "the GC clears a lock only for a file that is locked and was created before the last boot", ok, key=f"{q}|unlock-without-boot-test", where=loc(n), detail=f"facts: {sorted(pos)}")
+                continue
+            modes = {t for t in pos if t.startswith("self.") and "exit" in t}
+            ok = bool(modes)
+            mode_attrs |= {t.split(".", 1)[1] for t in modes}
+            ctx.ob("R6", st, "the lock flag is cleared only under the flusher's at-exit mode", ok, key=f"{q}|unlock-outside-at-exit", where=loc(n), detail=f"facts: {sorted(pos)}")
+    if n_sites < 2:
+        raise AnalysisError(f"{JSON}: only {n_sites} writes of `locked: False` found (expected the flusher and the reboot repair)")
+    # the mode is the constructor parameter, and JsonHistory.flush passes its own parameter through
+    fi = mod.func("JsonHistoryFlusher.__init__")
+    fparams = {a_.arg for a_ in fi.args.args + fi.args.kwonlyargs}
+    for a in sorted(mode_attrs):
+        srcs = [n.value for n in walk_local(fi) if isinstance(n, ast.Assign) and any(unparse(t) == f"self.{a}" for t in n.targets)]
+        ok = bool(srcs) and all(isinstance(v, ast.Name) and v.id in fparams for v in srcs)
+        ctx.ob("R6", f"{JSON}:JsonHistoryFlusher.__init__", f"`self.{a}` is the constructor's parameter, unchanged", ok, key=f"flusher-init|mode-not-param|{a}", where=loc(fi))
+    fl = mod.func("JsonHistory.flush")
+    flp = {a_.arg for a_ in fl.args.args + fl.args.kwonlyargs}
+    ctor = [c for c in calls_in(fl) if (call_name(c) or "").endswith("JsonHistoryFlusher")]
+    if not ctor:
+        raise AnchorMissing(f"{JSON}:JsonHistory.flush: construction of the flusher")
+    mode_param = None
+    for c in ctor:
+        kw = [k for k in c.keywords if k.arg in mode_attrs]
+        ok = bool(kw) and all(isinstance(k.value, ast.Name) and k.value.id in flp and not [d for d in df.all_defs(fl).get(k.value.id, []) if d.kind != "param"] for k in kw)
+        if ok:
+            mode_param = kw[0].value.id
+        ctx.ob("R6", f"{JSON}:JsonHistory.flush", "the flusher's mode is flush()'s own parameter, not recomputed", ok, key="flush|mode-not-passed-through", where=loc(c))
+    if mode_param is None:
+        return
+    # who asks for the at-exit mode?  every call of a .flush(..) in the package that passes the parameter
+    pidx = [a_.arg for a_ in fl.args.args if a_.arg != "self"].index(mode_param) if mode_param in [a_.arg for a_ in fl.args.args] else None
+    n_calls = 0
+    for m2 in ctx.repo.modules("xonsh", containing=mode_param):
+        for q2, f2 in m2.functions():
+            for c in calls_in(f2):
+                if not (isinstance(c.func, ast.Attribute) and c.func.attr == "flush"):
+                    continue
+                v = kwarg(c, mode_param)
+                if v is None and pidx is not None and len(c.args) > pidx:
+                    v = c.args[pidx]
+                if v is None or const_value(v, True) is False:
+                    continue
+                n_calls += 1
+                site = f"{m2.rel}:{q2}"
+                # session-end code of this module: the table, plus closures handed to atexit.register where they are defined
+                ends = {k.split(":", 1)[1]: v for k, v in SESSION_END.items() if k.startswith(m2.rel + ":")}
+                for q3, f3 in m2.functions():
+                    parent = m2.quals.get(q3.rsplit(".", 1)[0]) if "." in q3 else None
+                    if parent is not None and isinstance(parent, (ast.FunctionDef, ast.AsyncFunctionDef)) and any(call_name(c2) == "atexit.register" and c2.args and isinstance(c2.args[0], ast.Name) and c2.args[0].id == f3.name for c2 in ast.walk(parent) if isinstance(c2, ast.Call)):
+                        ends[q3] = "registered with atexit.register"
+                        ends.setdefault(q3.rsplit(".", 1)[0], "defines the atexit hook (the closure's calls are attributed to it as well)")
+                why = ends.get(q2)
+                if why is None and only_called_from(ctx.repo, m2, q2, set(ends)):
+                    why = "helper called only from session-end code"
+                ctx.ob("R6", site, f"`{short(c, 50)}` asks for the at-exit flush (which unlocks the file) from session-end code" + (f": {why}" if why else ""), why is not None, key=f"{q2}|at-exit-flush-in-live-session", where=loc(c))
+    if n_calls < 1:
+        raise AnalysisError("no at-exit flush call site found in the package (expected the atexit hook and the session unload)")
+
 
 META = {
     "technique": "static analysis: def-use provenance of the removal set, CFG guard dominance, slice-shape rule over history/json.py",
@@ -392,4 +491,5 @@ META = {
     "enumeration itself rewrites (stale-lock clearing). The numeric cut k and the SQLite query are not decided.",
     "note": "Decides the listed structural clauses, not the behaviour. Trusted: list.sort on tuples orders by the "
     "first element; the first tuple element is the closing timestamp (read, not checked).",
+    "more": "Also decided: a session's file is marked unlocked only under the flusher's at-exit mode (or by the reboot repair under its boot test), and only session-end code asks for that mode.",
 }
